@@ -1,7 +1,9 @@
 /-
-  Driver engine stub (Err): replaced by the real engine; see notes/AGENT_BRIEF.md.
+  Driver engine for C20 (documented errors) and the weather part of C12: each line carries one
+  documented invalid (or valid) input and the exception class the implementation raised.
 -/
 import PopsModel.Driver.Util
+import PopsModel.Model.Errors
 namespace Pops.Driver.ErrEng
 open Pops Pops.Driver
 
@@ -9,7 +11,121 @@ structure State where
   dummy : Unit := ()
 deriving Inhabited
 
-def handle (st : State) (_cmd : String) (_inp _obs : List String) : State × String :=
-  (st, "BADLINE")
+def unq (s : String) : String := if s = "<empty>" then "" else s.replace "_SP_" " "
+
+def date3? : List String → Option (Date × List String)
+  | a :: b :: c :: rest => do
+    let y ← parseInt? a; let m ← parseInt? b; let d ← parseInt? c
+    some (⟨y, m, d⟩, rest)
+  | _ => none
+
+partial def steps? (k : Nat) (toks : List String) : Option (List Step × List String) :=
+  if k = 0 then some ([], toks) else do
+    let (s, r1) ← date3? toks
+    let (e, r2) ← date3? r1
+    let (rest, r3) ← steps? (k - 1) r2
+    some (⟨s, e⟩ :: rest, r3)
+
+/-- `m@e` = m * 2^e, the exact value of a double. -/
+def dyadic? (tok : String) : Option Rat :=
+  match tok.splitOn "@" with
+  | [m, e] => do
+    let m ← parseInt? m; let e ← parseInt? e
+    some (if e ≥ 0 then (m * (2 : Int) ^ e.toNat : Int) else mkRat m (2 ^ (-e).toNat))
+  | _ => none
+
+/-- Compare the observed outcome with the model's; `documented` marks inputs of a documented
+    invalid-input class, for which a disagreement is a violation of C20 itself. -/
+def judge (what : String) (model : String) (obs : List String) (documented : Bool) : String :=
+  let o := " ".intercalate obs
+  if o = model then "ok"
+  else if documented || o.startsWith "err:other" then s!"PROPFAIL C20 documented_error {what} expected={model} observed={o}"
+  else s!"MISMATCH {what} model={model}"
+
+def exc {α : Type} (r : Except ErrKind α) (okText : α → String) : String :=
+  match r with | .ok a => okText a | .error e => errTok e
+
+def handle (st : State) (cmd : String) (inp obs : List String) : State × String :=
+  match cmd, inp with
+  | "err.modeltype", [s] =>
+    let m := modelTypeFromString (unq s)
+    (st, judge cmd (exc m fun t => if t == .si then "ok SI" else "ok SEI") obs (m.toOption.isNone))
+  | "err.weathertype", [s] =>
+    let m := weatherTypeFromString (unq s)
+    (st, judge cmd (exc m fun t => match t with | .deterministic => "ok deterministic" | .probabilistic => "ok probabilistic" | .none => "ok none") obs (m.toOption.isNone))
+  | "err.treatapp", [s] =>
+    let m := treatAppFromString (unq s)
+    (st, judge cmd (exc m fun t => if t == .ratio then "ok ratio" else "ok all") obs (m.toOption.isNone))
+  | "err.arrival", [s] =>
+    let m := setArrivalBehavior (unq s)
+    (st, judge cmd (exc m fun _ => "ok") obs (m.toOption.isNone))
+  | "err.envweather", [] => (st, judge cmd (errTok .logic_error) obs true)
+  | "err.envtemp", [] => (st, judge cmd (errTok .logic_error) obs true)
+  | "err.mortalitynotable", [] => (st, judge cmd (errTok .invalid_argument) obs true)
+  | "err.soilempty", [n] =>
+    match parseNat? n with
+    | some n => (st, judge cmd (exc (soilPoolNew n) fun _ => "ok") obs (n == 0))
+    | none => (st, "BADLINE")
+  | "err.accessor", [_which, created, enabled] =>
+    let m := configAccessor (created == "1") (enabled == "1")
+    (st, judge cmd (exc m fun _ => "ok") obs (m.toOption.isNone))
+  | "err.suitability", [s, n, w] =>
+    match parseInt? s, parseInt? n with
+    | some s, some n =>
+      let c : Cell := { s := s, e := [], i := 0, r := 0, te := 0, mort := [0], died := 0, th := s }
+      let env : EnvCell := { n := n, w := if w = "none" then none else parseRat? w, sus := none }
+      let m := c.suitability env
+      (st, judge cmd (exc m fun _ => "ok") obs (m.toOption.isNone))
+    | _, _ => (st, "BADLINE")
+  | "err.remove", [ne, nm, elen, mlen, irem] =>
+    match parseNat? ne, parseNat? nm, parseNat? elen, parseNat? mlen, parseInt? irem with
+    | some ne, some nm, some elen, some mlen, some irem =>
+      let c : Cell := { s := 5, e := List.replicate ne 1, i := nm, r := 0, te := ne, mort := List.replicate nm 1, died := 0, th := 5 + ne + nm }
+      let m := c.completelyRemove 1 (List.replicate elen 0) irem (List.replicate mlen 0)
+      (st, judge cmd (exc m fun _ => "ok") obs (m.toOption.isNone))
+    | _, _, _, _, _ => (st, "BADLINE")
+  | "err.resistant", [ne, nm, elen, mlen, sR] =>
+    match parseNat? ne, parseNat? nm, parseNat? elen, parseNat? mlen, parseInt? sR with
+    | some ne, some nm, some elen, some mlen, some sR =>
+      let c : Cell := { s := 5, e := List.replicate ne 1, i := nm, r := 0, te := ne, mort := List.replicate nm 1, died := 0, th := 5 + ne + nm }
+      let m := c.makeResistant sR (List.replicate elen 0) 0 (List.replicate mlen 0)
+      (st, judge cmd (exc m fun _ => "ok") obs (m.toOption.isNone))
+    | _, _, _, _, _ => (st, "BADLINE")
+  | "err.addtreat", k :: rest =>
+    match parseNat? k with
+    | some k =>
+      match steps? k rest with
+      | some (steps, r2) =>
+        match date3? r2 with
+        | some (d, [days]) =>
+          match parseNat? days with
+          | some days =>
+            let m := addTreatment steps d days
+            (st, judge cmd (exc m fun t => s!"ok {t.start} {t.end_}") obs (m.toOption.isNone))
+          | none => (st, "BADLINE")
+        | _ => (st, "BADLINE")
+      | none => (st, "BADLINE")
+    | none => (st, "BADLINE")
+  -- C12 weather: update_weather_from_distribution mr mc sr sc means.. => ok v.. | err
+  | "err.weatherdist", mr :: mc :: sr :: sc :: meanToks =>
+    match parseNat? mr, parseNat? mc, parseNat? sr, parseNat? sc, parseRats? meanToks with
+    | some mr, some mc, some sr, some sc, some means =>
+      let zeros := means.map fun _ => (0 : Rat)
+      let modelErr := updateWeatherFromDistribution mr mc sr sc means zeros zeros
+      match obs with
+      | "ok" :: vals =>
+        match vals.mapM dyadic? with
+        | some vs =>
+          if vs.any (fun v => decide (v < 0) || decide (v > 1)) then (st, s!"PROPFAIL C12 weather_range values={vals}")
+          else if vs.length ≠ means.length then (st, "PROPFAIL C12 weather_range wrong number of cells")
+          else (st, match modelErr with | .ok _ => "ok" | .error e => s!"PROPFAIL C12 mean_rejected expected={errTok e} observed=ok")
+        | none => (st, "BADLINE")
+      | [e] =>
+        (st, match modelErr with
+          | .error k => if e = errTok k then "ok" else s!"PROPFAIL C20 documented_error err.weatherdist expected={errTok k} observed={e}"
+          | .ok _ => s!"MISMATCH err.weatherdist model=ok observed={e}")
+      | _ => (st, "BADLINE")
+    | _, _, _, _, _ => (st, "BADLINE")
+  | _, _ => (st, "BADLINE")
 
 end Pops.Driver.ErrEng
